@@ -181,9 +181,104 @@ def color_writer_check(res):
     res.count('colour_writer_cases', len(cases))
 
 
+BOM_IMPL_PY = r"""
+import sys, json, os, tempfile, shutil
+from rbql import rbql_csv
+out = []
+d = tempfile.mkdtemp(prefix='rbqlverif_bom_')
+try:
+    for data, jdata, enc, pol, hdr, query in json.loads(sys.stdin.read()):
+        inp, outp, jp = os.path.join(d, 'in.csv'), os.path.join(d, 'out.csv'), os.path.join(d, 'j.csv')
+        open(inp, 'wb').write(bytes(data)); open(jp, 'wb').write(bytes(jdata))
+        w = []
+        try:
+            rbql_csv.query_csv(query.replace('JOINFILE', jp), inp, ',', pol, outp, ',', pol, enc, w, hdr)
+            out.append({'warnings': w, 'output': list(open(outp, 'rb').read())})
+        except Exception as e:
+            out.append({'error': type(e).__name__ + ': ' + str(e)[:100]})
+finally:
+    shutil.rmtree(d, ignore_errors=True)
+print(json.dumps(out))
+"""
+
+BOM_IMPL_JS = r"""
+const fs = require('fs'), os = require('os'), path = require('path');
+const rbql_csv = require(process.env.VERIF_REPO + '/rbql-js/rbql_csv.js');
+(async () => {
+    const cases = JSON.parse(fs.readFileSync(0, 'utf-8')); const out = [];
+    const d = fs.mkdtempSync(path.join(os.tmpdir(), 'rbqlverif_bomjs_'));
+    for (const [data, jdata, enc, pol, hdr, query] of cases) {
+        const inp = path.join(d, 'in.csv'), outp = path.join(d, 'out.csv'), jp = path.join(d, 'j.csv');
+        fs.writeFileSync(inp, Buffer.from(data)); fs.writeFileSync(jp, Buffer.from(jdata));
+        const w = [];
+        try {
+            await rbql_csv.query_csv(query.replace('JOINFILE', jp), inp, ',', pol, outp, ',', pol, enc, w, hdr);
+            out.push({warnings: w, output: Array.from(fs.readFileSync(outp))});
+        } catch (e) { out.push({error: String(e).slice(0, 100)}); }
+    }
+    fs.rmSync(d, {recursive: true, force: true});
+    console.log(JSON.stringify(out));
+})();
+"""
+
+
+def bom_end_to_end_check(res):
+    """query_csv on FILES (bytes through the real decoder): the BOM warning appears iff the table's bytes begin with EF BB BF,
+    names the right table, and the mark never reaches the output (direct oracle, both ports, utf-8 and latin-1)"""
+    import subprocess
+    import common
+    BOM = [0xef, 0xbb, 0xbf]
+    body = list('k1,x\nk2,y\n'.encode())
+    jbody = list('k1,J1\nk2,J2\n'.encode())
+    cases = []
+    for enc in ('utf-8', 'latin-1'):
+        for pol in ('quoted', 'simple', 'quoted_rfc'):
+            for hdr in (False, True):
+                for ib in (False, True):
+                    for jb in (False, True):
+                        for query in ('select *', 'select a1, b2 join JOINFILE on a1 == b1', 'select a1 where a1 == "k1"', 'select count(*)'):
+                            if 'join' not in query and jb:
+                                continue
+                            cases.append(((BOM if ib else []) + body, (BOM if jb else []) + jbody, enc, pol, hdr, query, ib, jb))
+    payload = json.dumps([c[:6] for c in cases]).encode()
+    for impl in ('py', 'js'):
+        if impl == 'py':
+            r = subprocess.run([common.PY, '-W', 'ignore', '-c', BOM_IMPL_PY], input=payload, env=common.impl_env(), stdout=subprocess.PIPE, stderr=subprocess.PIPE, timeout=600)
+        else:
+            r = subprocess.run(['node', '-e', BOM_IMPL_JS], input=payload, env=common.impl_env(), stdout=subprocess.PIPE, stderr=subprocess.PIPE, timeout=600)
+        try:
+            outs = json.loads(r.stdout.decode().strip().split('\n')[-1])
+        except (ValueError, IndexError):
+            raise RuntimeError('C14 BOM driver (%s) failed: %s' % (impl, r.stderr.decode()[-400:]))
+        nbad = 0
+        for c, o in zip(cases, outs):
+            res.evaluations += 1
+            res.nontrivial.add(('bom', impl, json.dumps(c[2:])))
+            why = None
+            if 'error' in o:
+                why = 'query_csv failed: ' + o['error']
+            else:
+                wi = [w for w in o['warnings'] if 'BOM' in w and 'in input table' in w]
+                wj = [w for w in o['warnings'] if 'BOM' in w and 'in input table' not in w]       # the join table is named by its path
+                if (len(wi) == 1) != c[6] or len(wi) > 1:
+                    why = 'BOM warning for the input table: expected %s, warnings %s' % (c[6], o['warnings'])
+                elif (len(wj) == 1) != c[7] or len(wj) > 1:
+                    why = 'BOM warning for the join table: expected %s, warnings %s' % (c[7], o['warnings'])
+                elif bytes(BOM) in bytes(o['output']) or '﻿'.encode() in bytes(o['output']) or 'ï»¿'.encode() in bytes(o['output']):
+                    why = 'the byte order mark reached the output'
+            if why:
+                nbad += 1
+                if nbad <= 3:
+                    res.violations.append({'property': 'C14', 'impl': impl, 'why': why, 'input_bytes': c[0], 'join_bytes': c[1], 'encoding': c[2], 'policy': c[3], 'with_headers': c[4],
+                                           'query': c[5], 'observed': o, 'case_key': 'C14|bom|%s|%s' % (impl, json.dumps(c[2:]))})
+        res.count('bom_end_to_end_cases_' + impl, len(cases))
+        res.count('bom_end_to_end_failures_' + impl, nbad)
+
+
 def run(res, tier, seed):
     res.rule = RULE
     color_writer_check(res)
+    bom_end_to_end_check(res)
     res.assumptions = ['host exceptions (TypeError text, UnicodeDecodeError) are classified, not modelled']
     cases = poison_cases()
     rnd = random.Random(seed * 9576890 + 14)
